@@ -75,6 +75,10 @@ CLAIM = dict(
           "Validated by which stream: single calls, history steps and scale cases all go through the same oracles "
           "(wellFormedFill/isFillPkts, regionsOK, resendOK, postOkCore/postErrCore with staleMasks/staleHides, "
           "startOnceOK, trace/outcome/state equality with both controller models, simulator = machine specification); "
+          "what the error SHOWS is verdict-bearing like what it carries: the cores parsed out of str(error) (every "
+          "integer triple after 'Failed to load applications to cores'), out of repr(error) (the printed map) and out "
+          "of error.args are judged by the same oracle postErrCore whenever they differ from error.app_map (key "
+          "error-message-inexact; equal sets share the verdict of error.app_map); "
           "histories add: error payload unchanged after later calls (violation error-payload-changed), caller's map not "
           "modified and str(error) does not raise (mismatch only: the property does not speak about them), a call that "
           "does not return within the CPU limit (violation did-not-return: the model's loop terminates, "
@@ -112,7 +116,8 @@ THEOREMS += ['gen_get_next_nn_id']   # translator tie: generated function bodies
 
 RULE = ("cases = (machine of 1-40 chips: rectangles at several origins incl. aligned 4x4/8x8 blocks, scattered chips up to "
         "coordinate 255; SCP data buffer reported by sver in {4,8,16,64,128,252,256,260,384,512,1024} (incl. machines with a "
-        "buffer LARGER than the usual 256 bytes), version in sver as semantic-version string or legacy fixed point; 1-3 "
+        "buffer LARGER than the usual 256 bytes), version in sver as semantic-version string or legacy fixed point; 1-4 binaries, most "
+        "of them with cores on the same chips (fixed cases: 2-4 binaries sharing a chip that misses every fill, both modes); "
         "binaries of 0 .. 5 buffers, lengths around multiples of the buffer and around multiples of 256; sdram_sys at the "
         "bottom / typical / top of SDRAM, several vcpu bases; call as map / (filename, targets) / through the controller "
         "context with use_count defaulted; fixed cases: two binaries of 2 buffers and 2 buffers + 1 word on machines with "
@@ -386,7 +391,7 @@ def gen_case(rng, overflow=False, chips=None, buf=None, n_apps=None):
     chips = dedup(gen_chips(rng)) if chips is None else chips
     buf = (4 if overflow else rng.choice(BUFS)) if buf is None else buf
     if n_apps is None:
-        n_apps = rng.choice([1, 1, 2, 2, 3]) if overflow or rng.random() > 0.02 else 0
+        n_apps = rng.choice([1, 1, 2, 2, 3, 3, 4]) if overflow or rng.random() > 0.02 else 0
     app_id = rng.choice([16, 30, 66, 255, rng.randrange(1, 256)])
     used = set()
     apps = []
@@ -541,6 +546,17 @@ def big_buffer_case(buf, use_count):
             "app_id": 30, "n_tries": 2, "wait": False, "use_count": use_count, "nn": 0,
             "missed": [[[1, 0]], [[1, 0]]], "pre": [], "missed_mode": "all-then-none", "pre_mode": "none",
             "sver": "legacy" if buf == 512 else "semver", "call": "dict"}
+
+
+def shared_chip_error_case(use_count, n_apps):
+    """several binaries with cores on the SAME chips; chip (1, 0) misses every fill: the error must name the
+    cores of every binary on that chip (in its map and in what it prints)"""
+    return {"chips": [[0, 0], [1, 0], [2, 0]], "buf": 16, "sdram_sys": 0x60000000, "vcpu_base": 0xe5007000,
+            "apps": [{"name": i, "image": [(7 * i + j) % 256 for j in range(16 + 4 * i)],
+                      "targets": [[0, 0, [1 + 3 * i]], [1, 0, [1 + 3 * i, 2 + 3 * i]], [2, 0, [3 + 3 * i]]][:3 - i % 2]}
+                     for i in range(n_apps)],
+            "app_id": 30, "n_tries": 1, "wait": True, "use_count": use_count, "nn": 0,
+            "missed": [[[1, 0]]] * (2 * n_apps), "pre": [], "missed_mode": "one-chip", "pre_mode": "none"}
 
 
 def stale_readback_case():
@@ -818,6 +834,14 @@ class Session(object):
                         res["error_str"] = str(e)
                     except Exception as e2:      # the message of the documented error cannot be produced
                         res["error_str_exc"] = "%s %s" % (type(e2).__name__, e2)
+                    # every other place where the error shows cores to the user: repr() and .args
+                    try:
+                        res["error_repr"] = repr(e)
+                    except Exception as e2:
+                        res["error_repr_exc"] = "%s %s" % (type(e2).__name__, e2)
+                    res["error_args"] = [
+                        sorted((int(x), int(y), int(c)) for t in a.values() for (x, y), cs in t.items() for c in cs)
+                        for a in e.args if hasattr(a, "values") and all(hasattr(t, "items") for t in a.values())]
                     if step.get("after_error") == "edit":
                         # (b) the caller edits what it was handed back
                         for t in e.app_map.values():
@@ -968,6 +992,39 @@ def eval_cases(ctx, cases):
         eval_units(ctx, units[i:i + 100], k)
 
 
+_TRIPLE = None
+
+
+def cores_in_message(text):
+    """the cores `str(SpiNNakerLoadingError)` names: "Failed to load applications to cores (x, y, p), (x, y, p), ..."
+    - every parenthesised triple of integers after the fixed prefix (file names are not part of the message)"""
+    import re
+    tail = text.split("cores", 1)[1] if "cores" in text else text
+    return [(int(a), int(b), int(c)) for a, b, c in re.findall(r"\(\s*(-?\d+)\s*,\s*(-?\d+)\s*,\s*(-?\d+)\s*\)", tail)]
+
+
+def cores_in_repr(text):
+    """the cores `repr(SpiNNakerLoadingError)` shows: the map {file: {(x, y): {p, ...}}} as Python prints it
+    (sets, frozensets, lists or tuples of ints or numpy ints)"""
+    import re
+    text = re.sub(r"np\.int64\((-?\d+)\)", r"\1", text)
+    out = []
+    for x, y, body in re.findall(r"\((\d+), (\d+)\): (?:frozenset\()?[\[({]([\d, ]*)[\])}]", text):
+        out += [(int(x), int(y), int(p)) for p in re.findall(r"\d+", body)]
+    return out
+
+
+def named_as_unloaded(case, cores):
+    """the cores some text names, as an `unloaded` map for the oracle postErrCore: each under the binary that
+    requested it, cores nobody requested under a binary of their own"""
+    by = {}
+    for x, y, p in sorted(set(cores)):
+        name = next((a["name"] for a in case["apps"] if any(
+            (t[0], t[1]) == (x, y) and p in t[2] for t in a["targets"])), 10 ** 6)
+        by.setdefault(name, {}).setdefault((x, y), []).append(p)
+    return [{"name": n, "image": [], "targets": [[x, y, ps] for (x, y), ps in t.items()]} for n, t in by.items()]
+
+
 def abnormal(case, res):
     """outcomes the model does not speak about: an injected transport fault / missing file, or no return"""
     o = res["outcome"]
@@ -1031,6 +1088,17 @@ def eval_units(ctx, units, k):
                 if res["outcome"] != "ok":
                     post["unloaded"] = [dict(a, image=[]) for a in res["outcome"]["loading_error"]]
                 batch.append(("post", post))
+                if res["outcome"] != "ok":
+                    # what the user is SHOWN must name exactly the cores that are not loaded too: the same oracle
+                    # (postErrCore) on the cores named by str(error), by repr(error) and by error.args
+                    for src, cores in (("str", cores_in_message(res["error_str"]) if "error_str" in res else None),
+                                       ("repr", cores_in_repr(res["error_repr"]) if "error_repr" in res else None),
+                                       ("args", [c for a in res.get("error_args", []) for c in a]
+                                        if res.get("error_args") else None)):
+                        in_map = {(x, y, p) for a in res["outcome"]["loading_error"] for x, y, ps in a["targets"] for p in ps}
+                        # (a text naming the very set of error.app_map gets the verdict of error.app_map above)
+                        if cores is not None and set(cores) != in_map:
+                            batch.append(("post_" + src, dict(post, unloaded=named_as_unloaded(case, cores))))
             if normal:
                 batch.append(("start_once", dict(suite="c09", op="start_once", app_id=case["app_id"],
                                                  started=(res["outcome"] == "ok" and not case["wait"] and not only_fill),
@@ -1198,6 +1266,37 @@ def judge(ctx, case, res, kinds, rs, n_fills, k, stale=None, payload=None):
                 break
     if not case.get("only_fill") and n_fills > (case["n_tries"] + 1) * len(case["apps"]):
         ctx.violation("too-many-attempts", "%d fills for %d binaries with n_tries=%d" % (n_fills, len(case["apps"]), case["n_tries"]), payload)
+    if "post" in by and outcome != "ok":
+        in_map = sorted((x, y, p) for a in outcome["loading_error"] for x, y, ps in a["targets"] for p in ps)
+        chips_of = {}
+        for a in outcome["loading_error"]:
+            for x, y, ps in a["targets"]:
+                if ps:
+                    chips_of.setdefault((x, y), set()).add(a["name"])
+        if any(len(v) > 1 for v in chips_of.values()):
+            ctx.tag("error_names_several_binaries_on_one_chip")
+        bad_map = set(map(tuple, by["post"][0].get("bad", [])))
+        for src, shown in (("str", "str(error)"), ("repr", "repr(error)"), ("args", "error.args")):
+            named = {"str": cores_in_message(res["error_str"]) if "error_str" in res else None,
+                     "repr": cores_in_repr(res["error_repr"]) if "error_repr" in res else None,
+                     "args": [tuple(c) for a in res["error_args"] for c in a] if res.get("error_args") else None}[src]
+            if named is None:
+                continue
+            ctx.tag("error_%s_checked" % src)
+            if len(named) != len(set(named)):
+                ctx.tag("error_%s_names_a_core_twice" % src)
+            if "post_" + src not in by:
+                continue
+            ctx.tag("error_%s_differs_from_app_map" % src)
+            r = by["post_" + src][0]
+            new_bad = sorted(set(map(tuple, r.get("bad", []))) - bad_map)
+            if new_bad:
+                # (cores that violate the post-condition for error.app_map as well are judged below, once)
+                ctx.violation("error-message-inexact",
+                              "SpiNNakerLoadingError raised; %s names the cores %r but error.app_map / the machine say %r: "
+                              "cores %r are named without being unloaded requested cores, or are not loaded and not "
+                              "named" % (shown, sorted(set(named))[:12], in_map[:12], new_bad[:8]), payload)
+                break
     if "post" in by:
         r = by["post"][0]
         if not r["ok"]:
@@ -1570,7 +1669,7 @@ def sig_fixed_cases(t):
 def run_sig(ctx):
     t = load_sig_tables()
     cases = sig_fixed_cases(t)
-    n = ctx.scale(150, 3000)
+    n = ctx.scale(150, 2400)
     if ctx.extended:
         n *= 4
     for _ in range(n):
@@ -1758,14 +1857,15 @@ def run(ctx):
         cases = [stale_count_case(), stale_readback_case(), overflow_case(),
                  stale_more_case(1), stale_more_case(2), stale_more_case(3), stale_more_case(5)]
         cases += [big_buffer_case(b, uc) for b in (128, 260, 512, 1024) for uc in (True, False)]
-        n = ctx.scale(200, 3200)
+        cases += [shared_chip_error_case(uc, n) for n in (2, 3, 4) for uc in (True, False)]
+        n = ctx.scale(180, 2200)
         if ctx.extended:
             n *= 4
         for i in range(n):
             cases.append(gen_case(ctx.rng, overflow=(i % 97 == 50)))
         # histories: 2-6 calls on one machine through one or two controllers (twins, edited maps, faults), one
         # (thorough: three) of more than 130 fills; a handful of cases far beyond the usual size
-        nh = ctx.scale(40, 600) * (4 if ctx.extended else 1)
+        nh = ctx.scale(40, 450) * (4 if ctx.extended else 1)
         cases += [gen_history(ctx.rng) for _ in range(nh)]
         cases += [gen_history(ctx.rng, long_run=True) for _ in range(ctx.scale(1, 3))]
         cases += scale_cases(ctx.rng, ctx.scale(2, 4))
